@@ -15,7 +15,8 @@ ANCHORS = ["Interval.contains", "Interval.overlaps", "Interval.intersection", "A
            "AngleInterval.contains", "Interval.__truediv__", "Interval.__mul__", "Interval.__round__"]
 REQUIRED = ["interval.contains", "interval.overlaps", "interval.intersection", "interval.mul.neg", "interval.div.neg",
             "interval.mul.zero", "interval.round", "interval.reject", "angle.contains.float", "angle.contains.int",
-            "angle.len>pi", "angle.wrap", "angle.shift", "angle.contains.interval", "angle.contains.numpy"]
+            "angle.len>pi", "angle.wrap", "angle.shift", "angle.contains.interval", "angle.contains.numpy",
+            "angle.many-turns-away"]
 ASSUMPTIONS = ["angles within 1e-9 of an interval end are not judged (skipped_band)",
                "float division/multiplication are IEEE correctly rounded, so the exact rational result rounded to "
                "double is the expected value"]
@@ -163,7 +164,7 @@ def run(ctx):
     def member(th, a, b):
         """True / False / None(band)"""
         near = False
-        for k in range(-4, 5):
+        for k in range(-40, 41):
             v = th + TWO_PI * k
             if a + BAND <= v <= b - BAND:
                 return True
@@ -219,9 +220,16 @@ def run(ctx):
         if idx % 7 == 0:
             qs += [a, b]  # exactly on the ends: always inside the guard band, recorded as skipped
         qs += [rng.uniform(-TWO_PI, TWO_PI) for _ in range(4)]
-        ints = [-6, -3, -1, 0, 1, 2, 3, 4, 6]
+        # representatives many turns away ("th + 2pi*k for SOME integer k"): inside and outside, up to +-30 turns
+        far = []
+        for kk in (2, 3, 5, -2, -3, -4, -7, rng.randint(8, 30), -rng.randint(8, 30)):
+            far += [a + ln * rng.uniform(0.05, 0.95) + TWO_PI * kk, b + (TWO_PI - ln) * rng.uniform(0.05, 0.95) + TWO_PI * kk]
+        if ln > 1e-3 and TWO_PI - ln > 1e-3:
+            qs += far
+            ctx.feature("angle.many-turns-away")
+        ints = [-6, -3, -1, 0, 1, 2, 3, 4, 6, -13, 13, -20, 25, -100, 100]
         for q in qs + ints:
-            if not (-TWO_PI * 2 <= q <= TWO_PI * 2):
+            if not (-TWO_PI * 35 <= q <= TWO_PI * 35):
                 continue
             exp = member(q, a, b)
             variants = [("float" if isinstance(q, float) else "int", q)]
